@@ -130,6 +130,14 @@ def step (dc : Codecs) (mp : Nat → Option (Bytes → Option Str)) (line : Stri
     | some t => showNats (lfToCrlf t) | none => "bad-op"
   | ["crlf2lf", b] => match parseNats b with
     | some t => showNats (crlfToLf t) | none => "bad-op"
+  | ["written", l, v, e, o] => match parseNats v, parseNats e, parseNats o with
+    | some v, some e, some o =>
+      let w := writeDoc Gen.EncodingTables.encodingToCodepage ⟨l = "1", v, e, o⟩
+      showNats w.acadver ++ ";" ++ showNats w.codepage ++ ";" ++ showNats w.bytesEncoding
+    | _, _, _ => "bad-op"
+  | ["writestr", s] => match parseNats s with
+    | some t => ";".intercalate ((writeStrTags t).map (fun p => showNats (p.1.filter (· != 32)) ++ ":" ++ showNats p.2))
+    | none => "bad-op"
   | ["detect", v, s] => match parseNats v, parseNats s with
     | some v, some t => showNats (detectEncoding Gen.EncodingTables.codepageToEncoding v t) | _, _ => "bad-op"
   | ["detectrec", v, s] => match parseNats v, parseNats s with
